@@ -77,18 +77,19 @@ def hatFn (a b : Rat) (k i : Nat) (t : Rat) : Rat :=
   let v := 1 - ratAbs (t - linPt a b (2 ^ k) i) / ((b - a) / ((2 ^ k : Nat) : Rat))
   if v < 0 then 0 else v
 
-/-- `np.isclose(x, y)` with the default `rtol = 1e-5`, `atol = 1e-8`: `|x - y| <= atol + rtol * |y|` -/
-def isClose (x y : Rat) : Bool :=
-  decide (ratAbs (x - y) ≤ 1 / 100000000 + 1 / 100000 * ratAbs y)
+/-- `abs(x - e) <= 1e-12 * (b - a)`: `x` coincides with the end `e` of `[a,b]` up to a tolerance relative to the width -/
+def nearEnd (x e a b : Rat) : Bool :=
+  decide (ratAbs (x - e) ≤ 1 / 1000000000000 * (b - a))
 
-def anyClose : List Rat → List Rat → Bool
-  | x :: xs, y :: ys => isClose x y || anyClose xs ys
-  | _, _ => false
+/-- `np.any(np.abs(points - e) <= tol)` for one point, `e` = the list of lower resp. upper ends -/
+def anyNear : List Rat → List Rat → List Rat → List Rat → Bool
+  | x :: xs, e :: es, a :: as, b :: bs => nearEnd x e a b || anyNear xs es as bs
+  | _, _, _, _ => false
 
 /-- `Grid.points_not_zero` for one point:
-`boundary or not (any(isclose(p, a)) or any(isclose(p, b)))` -/
+`boundary or not (any(abs(p - a) <= tol) or any(abs(p - b) <= tol))`, `tol = 1e-12 * (b - a)` -/
 def pointNotZero (a b : List Rat) (bd : Bool) (p : List Rat) : Bool :=
-  bd || !(anyClose p a || anyClose p b)
+  bd || !(anyNear p a a b || anyNear p b a b)
 
 /-- `Integration.get_component_grid_values`: the function on the mesh, zero where `points_not_zero` is false -/
 def meshVal (a b : List Rat) (bd : Bool) (f : List Rat → Rat) (p : List Rat) : Rat :=
